@@ -37,14 +37,17 @@ class TreeToJson(Transformer):
         return False
 
 
-def toast(ptnode, high_level, categorical):
+def toast(ptnode, high_level, categorical, toplevel=False):
+    # toplevel: this node is the whole type string (only there can "N * type"
+    # be the length of an array, an ak.types.ArrayType; anywhere else it is a
+    # regular dimension, an ak.types.RegularType).
     if ptnode.__class__.__name__ == "Token":
         return ptnode.value
     elif ptnode.data == "start":
-        return toast(ptnode.children[0], high_level, categorical)
+        return toast(ptnode.children[0], high_level, categorical, toplevel)
     elif ptnode.data == "input":
         assert len(ptnode.children) == 1
-        return toast(ptnode.children[0], high_level, categorical)
+        return toast(ptnode.children[0], high_level, categorical, toplevel)
     elif ptnode.data == "predefined_typestr":
         if ptnode.children[0] == "string":
             parms = {"__array__": "string"}
@@ -256,15 +259,21 @@ def toast(ptnode, high_level, categorical):
         )
     elif ptnode.data == "regular":
         assert (len(ptnode.children)) == 1
-        return toast(ptnode.children[0], high_level, categorical)
+        return toast(ptnode.children[0], high_level, categorical, toplevel)
     elif ptnode.data == "regular_inparm":
         assert len(ptnode.children) == 2
-        if high_level:
+        if high_level and toplevel:
             return ak.types.ArrayType(
                 toast(ptnode.children[1], high_level, categorical), ptnode.children[0]
             )
+        parms = {}
+        if categorical:
+            parms.update({"__categorical__": True})
+            categorical = False
         return ak.types.RegularType(
-            toast(ptnode.children[1], high_level, categorical), ptnode.children[0]
+            toast(ptnode.children[1], high_level, False),
+            ptnode.children[0],
+            parameters=parms,
         )
     elif ptnode.data == "regular_outparm":
         assert len(ptnode.children) == 3
@@ -289,4 +298,4 @@ def toast(ptnode, high_level, categorical):
 
 def from_datashape(typestr, high_level=False):
     parseobj = Lark_StandAlone(transformer=TreeToJson())
-    return toast(parseobj.parse(typestr), high_level, False)
+    return toast(parseobj.parse(typestr), high_level, False, True)
